@@ -148,6 +148,14 @@ def carried_fields(fn, prop, F, stats):
                     elif isinstance(v, list):
                         for x in v:
                             walk(x, ctx)
+            if e.get("k") == "call" and e.get("callee") in ("memcpy", "memset", "__builtin_memcpy", "__builtin_memset", "memmove") and e.get("args"):
+                a0 = _strip(e["args"][0])
+                if isinstance(a0, dict) and a0.get("k") == "unop" and a0["op"] == "&" and _strip(a0["e"]).get("k") == "var" and _strip(a0["e"])["id"] == vid:
+                    st = {(f_, tag) for f_, tag in st if tag != "c"}       # the whole struct is overwritten: nothing is carried any more
+                    continue
+            if e.get("k") == "binop" and e["op"] == "=" and _strip(e["l"]).get("k") == "var" and _strip(e["l"])["id"] == vid:
+                st = {(f_, tag) for f_, tag in st if tag != "c"}           # param = default_param;
+                continue
             if e.get("k") == "call":
                 if passes_struct(e):
                     rd = sorted({f_ for f_, tag in st if tag == "c"})
@@ -529,6 +537,36 @@ def conversion_coverage(prop, res):
         if best is None or len(best[0]) < 20:
             raise AnalysisBroken("R-PRINTF: the conversion switch of %s was not found" % name)
         have = {chr(v) for v in best[0] if 0 < v < 128}
+        # characters the function recognises by comparing the dispatch variable instead of a case label: fchar == 'x', a range test
+        # (fchar >= '1' && fchar <= '9'), isdigit (fchar)
+        swvar = None
+        for b in fn["blocks"]:
+            t = b.get("term")
+            if t and t.get("kind") == "SwitchStmt" and t.get("line") == best[1]:
+                c_ = _strip(t.get("cond") or {})
+                if isinstance(c_, dict) and c_.get("k") == "var":
+                    swvar = c_["id"]
+        if swvar is not None:
+            los, his = [], []
+            for b in fn["blocks"]:
+                for el in b["elems"]:
+                    def cmpf(n):
+                        if n.get("k") == "binop" and n["op"] in ("==", ">=", "<=", ">", "<"):
+                            l, r = _strip(n["l"]), _strip(n["r"])
+                            if l.get("k") == "var" and l["id"] == swvar and r.get("k") == "int" and 0 < r["v"] < 128:
+                                if n["op"] == "==":
+                                    have.add(chr(r["v"]))
+                                elif n["op"] in (">=", ">"):
+                                    los.append(r["v"] + (1 if n["op"] == ">" else 0))
+                                else:
+                                    his.append(r["v"] - (1 if n["op"] == "<" else 0))
+                        if n.get("k") == "call" and n.get("callee") == "__ctype_b_loc" and "isdigit" in (n.get("m") or []):
+                            have.update("0123456789")
+                    sa.walk(el["e"], cmpf)
+            for lo in los:
+                for hi in his:
+                    if lo <= hi and hi - lo <= 9:
+                        have.update(chr(x) for x in range(lo, hi + 1))
         res["stats"]["conversion_cases"] += len(req)
         for ch in sorted(req - have):
             F.append(Finding(prop, "R-PRINTF", fn["file"], best[1], name, "conversion-without-case:%s" % ch,
@@ -673,8 +711,12 @@ def run(prop="C18", tier="quick"):
                             x = x["e"]
                         return isinstance(x, dict) and "unsigned char *" in x.get("ct", "")
                     if e.get("k") == "var":
+                        if e.get("ct") == "unsigned char":
+                            return True
                         ds = defs.get(e["id"], [])
                         return bool(ds) and all(bytey(d_, depth + 1) for d_ in ds)
+                    if e.get("k") == "cond":
+                        return bytey(e["a"], depth + 1) and bytey(e["b"], depth + 1)
                     return False
                 for line, e in rets:
                     res["stats"]["table_slots"] += 1
